@@ -32,6 +32,9 @@ class Rules(Obligation):
                      'artifacts':'per path: absent / material only / product only / both, one free digest byte each (equal or different)' if group=='basic' else 'per path present/absent on the rule side; referenced step: per path present/absent with a free digest byte',
                      'hash_map_iteration':'insertion order (the rule engine iterates BTree collections only; HashMap is used for lookup by name)','normalisation':'all paths already normal (no ./ .. //); non-normal paths are C14\'s'}
         self.witnesses=['accept','reject']; self.seen=set()
+        if group=='algs':
+            self.hash_order='all'      # digest tables are HashMaps: every iteration order of a two-algorithm table is explored
+            self.bounds.update({'rule_list':'MATCH a WITH PRODUCTS FROM t (or WITH MATERIALS), followed by DISALLOW * / REQUIRE a / nothing','artifacts':'a recorded under sha256 and sha512 on the rule side (free digest bytes); on the side of t under both, only sha256 or only sha512 (free bytes): the descriptions must be equal as a whole','hash_map_iteration':'every permutation'})
     def setup(self,eng,tier):
         self.eng=eng; self.b=B(eng); self.fn=eng.find_fn('apply_rules_on_link')
     def entry(self,eng): return self.fn
@@ -43,6 +46,20 @@ class Rules(Obligation):
         b=self.b
         side=['materials','products'][run.pick(2,'side')]
         cat=BASIC if self.group=='basic' else MATCHES
+        if self.group=='algs':
+            w=['Products','Materials'][run.pick(2,'with')]
+            rules=[M('a',with_=w)]+[TAILS[0],TAILS[1],TAILS[3]][run.pick(3,'tail')]
+            own={'a':{'sha256':[z3.BitVec('s256',8)],'sha512':[z3.BitVec('s512',8)]}}
+            k=run.pick(4,'t_algs')
+            td={}
+            if k!=3: td={'a':[{'sha256':[z3.BitVec('t256',8)],'sha512':[z3.BitVec('t512',8)]},{'sha256':[z3.BitVec('t256',8)]},{'sha512':[z3.BitVec('t512',8)]}][k]}
+            links={'it':{'materials':own if side=='materials' else {},'products':own if side=='products' else {}},'t':{'materials':td if w=='Materials' else {},'products':td if w=='Products' else {}}}
+            def mk_art(d):
+                return [(b.vpath(p),b.hashmap([(b.variant('HashAlgorithm','Sha256' if alg=='sha256' else 'Sha512'),Agg('HashValue',[u8vec(bs)])) for alg,bs in dd.items()])) for p,dd in sorted(d.items())]
+            lm=b.hashmap([(mk_string(n),b.link(n,mk_art(l['materials']),mk_art(l['products']))) for n,l in links.items()])
+            rl=[self.mk_rule(r) for r in rules]
+            it=b.step('it',1,[],rl if side=='materials' else [],rl if side=='products' else [])
+            return [Ref(Cell(Ref(Cell(it)))),Ref(Cell(lm))],{'side':side,'rules':rules,'links':links}
         if self.group=='pairs': rules=list(PAIRS[run.pick(len(PAIRS),'pair')])
         else: rules=[cat[run.pick(len(cat),'rule%d'%i)] for i in range(self.seq)]
         rules=rules+TAILS[run.pick(len(TAILS),'tail')]
